@@ -65,7 +65,7 @@ Proof.
 Qed.
 
 (* ---- stage lemmas for compositions (chain rule at the level of expression vectors) ---- *)
-Lemma stage f t0 envD (es : list expr) :
+Lemma stage_derives f t0 envD (es : list expr) :
   env_derives f t0 envD -> List.Forall (okD envD) es ->
   env_derives (map (fun e t => evalR (envR f t) e) es) t0 (map (evalD envD) es).
 Proof.
